@@ -85,6 +85,7 @@ func main() {
 	if args[0] == "scenes" {
 		// vcheck scenes: how the other hands of the scene grid go on this tree
 		hand.SceneSelfTest(os.Stdout)
+		fmt.Println("scene configurations: quick", len(hand.SceneGrid("quick")), "thorough", len(hand.SceneGrid("thorough")))
 		os.Exit(0)
 	}
 	if args[0] == "probe" {
